@@ -526,6 +526,10 @@ func (g *encGen) field(d int) encField {
 		}
 		return f
 	case k == 8 || k == 9:
+		if g.r.Chance(1, 10) {
+			yes := hx([]byte("yes"))
+			return encField{F: "obj", Key: g.key(), Calls: []encCall{{M: "add", Key: hx([]byte("nil")), P: &encPrim{S: &yes}, Calls: []encCall{}}}}
+		}
 		return encField{F: "obj", Key: g.key(), Calls: g.ocalls(d), Err: g.optErr()}
 	case k == 10:
 		return encField{F: "arr", Key: g.key(), Calls: g.acalls(d), Err: g.optErr()}
